@@ -28,10 +28,13 @@ type SvcConfig struct {
 	Unknown    bool     // unknown-endpoint handler installed
 	DiscardUnknownQuery bool
 	Schema     string // "kitchen" (default), "library"
+	// TwoResolvers: the transcoder also serves verif.one.One with the default type resolver, while the main service gets a
+	// resolver that additionally knows verif.v1.Private (anything cached per transcoder instead of per service shows)
+	TwoResolvers bool
 }
 
 func (c *SvcConfig) Key() string {
-	return fmt.Sprintf("%s|%v|%v|%v|%d|%d|%v|%v|%v", c.Schema, c.Protocols, c.Codecs, c.Comps, c.Limit, c.MaxGetURL, c.KnowZZ, c.Unknown, c.DiscardUnknownQuery)
+	return fmt.Sprintf("%s|%v|%v|%v|%d|%d|%v|%v|%v|%v", c.Schema, c.Protocols, c.Codecs, c.Comps, c.Limit, c.MaxGetURL, c.KnowZZ, c.Unknown, c.DiscardUnknownQuery, c.TwoResolvers)
 }
 
 func (c *SvcConfig) HasProtocol(p string) bool { return contains(c.Protocols, p) }
@@ -156,6 +159,13 @@ func buildTranscoder(c *SvcConfig, fresh bool) (*vanguard.Transcoder, error) {
 		}
 	}
 	svc := vanguard.NewServiceWithSchema(schemaService(c.Schema), dispatcher, svcOptions(c)...)
+	svcs := []*vanguard.Service{svc}
+	if c.TwoResolvers {
+		// two services on one transcoder whose type resolvers differ: Kitchen's knows verif.v1.Private, One's does not
+		selServices()
+		svc = vanguard.NewServiceWithSchema(schemaService(c.Schema), dispatcher, append(svcOptions(c), vanguard.WithTypeResolver(privResolver{}))...)
+		svcs = []*vanguard.Service{svc, vanguard.NewServiceWithSchema(oneSvc, dispatcher, svcOptions(c)...)}
+	}
 	var topts []vanguard.TranscoderOption
 	if c.KnowZZ {
 		topts = append(topts, vanguard.WithCompression("zz", newZZCompressor, newZZDecompressor))
@@ -163,7 +173,7 @@ func buildTranscoder(c *SvcConfig, fresh bool) (*vanguard.Transcoder, error) {
 	if c.Unknown {
 		topts = append(topts, vanguard.WithUnknownHandler(unknownDispatcher))
 	}
-	t, err := vanguard.NewTranscoder([]*vanguard.Service{svc}, topts...)
+	t, err := vanguard.NewTranscoder(svcs, topts...)
 	if err != nil {
 		return nil, err
 	}
@@ -239,7 +249,12 @@ func runRPC(cfg *SvcConfig, creq *ClientReq, script *BackendScript, r *rand.Rand
 	built.Body.Chunks = eo.Chunks
 	built.Body.EndErr = eo.EndErr
 	e := &Exec{Cfg: cfg, Req: creq, Built: built, Rec: newRecorder()}
-	e.Backend = newBackend(schemaMethods(cfg.Schema), script)
+	methods := schemaMethods(cfg.Schema)
+	if cfg.TwoResolvers {
+		selServices()
+		methods = append(append([]*MethodInfo{}, methods...), oneMs...)
+	}
+	e.Backend = newBackend(methods, script)
 	e.Unknown = &rawHandler{}
 	if eo.Lock {
 		e.Rec.Lock = &sync.Mutex{}
